@@ -291,6 +291,9 @@ func wakeup3Run(args []string) int {
 	for i := 0; i < len(results) && len(samples) < 4; i += len(results)/4 + 1 {
 		samples = append(samples, results[i])
 	}
+	// BlockingExecution together with WorkerLimit (round 5): no pool exists, a due job is dispatched promptly
+	viol = append(viol, bothOptions("C05")...)
+	distinct["both-options"] = true
 	writeJSON(*out+"/stats.json", map[string]any{"seed": *seed, "evaluations": len(results) - setup, "distinct_nontrivial": len(distinct),
 		"distribution": dist, "violations": viol, "samples": samples, "setup_failures": setup, "max_latency_ms": maxLat,
 		"deadline_ms": (wuLimit + wuWatch).Milliseconds(), "wall_s": time.Since(t0).Seconds()})
